@@ -98,6 +98,7 @@ FnSem(sem, a) ==
   ELSE IF sem = "blen" THEN IF IsNil(a[1]) THEN Nil ELSE VInt(IntOfNat(Len(a[1].v)))
   ELSE IF sem = "alen" THEN IF IsNil(a[1]) THEN Nil ELSE VInt(IntOfNat(Len(a[1].v)))
   ELSE IF sem = "pair" THEN VBytes(Show(a[1]) \o <<124>> \o Show(a[2]))
+  ELSE IF sem = "join3" THEN VBytes(Show(a[1]) \o <<124>> \o Show(a[2]) \o <<124>> \o Show(a[3]))
   ELSE IF sem = "plen" THEN VInt(IntOfNat(Len(Show(a[1])) + Len(Show(a[2]))))     \* two byte strings -> Int
   ELSE IF sem = "opt2"
        THEN VBytes(Show(a[1]) \o <<124>> \o Show(a[2]) \o <<124>>
